@@ -297,6 +297,9 @@ impl<'a, B, OC, SC, L> StorageResolver<'a, B, OC, SC, L> {
     }
 }
 
+/// How many typed loads may be in progress on one thread (a page tree may be 16 levels deep).
+const MAX_NESTED_LOADS: usize = 64;
+
 struct Defer<F: FnMut()>(F);
 impl<F: FnMut()> Drop for Defer<F> {
     fn drop(&mut self) {
@@ -328,6 +331,10 @@ where
             let mut chain = self.chain.lock().unwrap();
             if chain.contains(&(thread, key)) {
                 bail!("Recursive reference");
+            }
+            // every nested load sits on the call stack: a long chain without a cycle is refused too
+            if chain.iter().filter(|&&(t, _)| t == thread).count() >= MAX_NESTED_LOADS {
+                bail!("references nested too deeply");
             }
             chain.push((thread, key));
         }
